@@ -13,6 +13,8 @@ SCRIPTS = [
     "map_broker_read_unordered",
     "map_broker_stream_read",
     "map_broker_read_meta",
+    "map_broker_find_expired",
+    "map_broker_batch_remove",
 ]
 
 if __name__ == "__main__":
